@@ -112,9 +112,9 @@ package commitment
 //@   props C11
 //@   requires h != nil && child != nil
 //@   modifies nothing
-//@   ensures result ==> h.Round == child.Round + 1
-//@   ensures h.Round != child.Round + 1 ==> !result
-//@   note a commitment's header extends a block only as its immediate successor round, with the block's encoded hash as previous hash
+//@   ensures result ==> h.Round == mod(child.Round + 1, 18446744073709551616)
+//@   ensures h.Round != mod(child.Round + 1, 18446744073709551616) ==> !result
+//@   note a commitment's header extends a block only as its immediate successor round (uint64 arithmetic)
 
 //@ func VerifyExecutorCommitment
 //@   props C11
